@@ -15,7 +15,7 @@ LEVEL = "proof"
 
 MANIFEST = {
     "technique": "Coq proof (template-shape expansion, Python block-rule parser lemma, big-step semantics vs table interpreter) + translation validation of the generated module + execution against the interpreter",
-    "text": ("Theorems C08_sem / C08_sem_triggered / C08_init / C08_block_structure: for every well-formed table, every event sequence and every guard oracle "
+    "text": ("Theorems C08_sem / C08_sem_triggered / C08_init / C08_block_structure / C08_name_domain: for every well-formed table, every event sequence and every guard oracle "
              "(indexed by call count) the lines smgen produces from the shipped template's transition blocks (shape regenerated from the "
              "template into Gen/PyTmpl.v on every run) parse by Python's block rule, and the parsed program makes exactly the callbacks and "
              "passes through exactly the states of the independent table interpreter (Spec/TableInterp.v). Tie: gen_py T equals the "
@@ -26,8 +26,9 @@ MANIFEST = {
              "NoTransition). Modelled, not verified: CPython executing if/return/method calls as the big-step semantics says; the construction of the event object in "
              "Trigger<Event> (that Trigger calls process(event) synchronously exactly once when StateMachineThread=0 is now part of the theorem, "
              "C08_sem_triggered, from the IR of Gen/PySync.v; threaded delivery is C11); isinstance on distinct event classes = name equality. "
-             "Names that collide with identifiers the template itself uses (Enum, EventStartup, NoTransition, ...) are outside the proof's name "
-             "abstraction; they are probed on the real code."),
+             "Names: the theorems carry the hypothesis py_names_ok (no table name is one of the template module's bare names); that list is computed from the template "
+             "by translator/pytmpl.py on every run (which also requires the controller's star import to be the FIRST import), pinned by C08_name_domain, used by the case "
+             "generator, and every reserved name is probed on the real code as an event with a parameter."),
 }
 RULE = ("random well-formed tables biased to several rows per (state,event) mixing guarded rows and unguarded fallbacks in both orders, "
         "repeated rows, self loops, target-only states, rows without target, spellings None/none/''/NONE/nOnE; random event parameter "
@@ -37,7 +38,8 @@ RULE = ("random well-formed tables biased to several rows per (state,event) mixi
 ASSUMPTIONS = ["wf_table: non-empty table; start state and event are UpperCamelCase alphanumeric identifiers, next/action/guard are such identifiers or an "
                "absent spelling ('' or any capitalisation of 'none'); True/False excluded; states/events/actions/guards pairwise disjoint",
                "non-threaded delivery (user tag StateMachineThread=0); the threaded queue is property C11",
-               "identifiers do not collide with names fixed by the template (Enum, EventStartup, NoTransition, On<State>Entry/Exit of another state, process<State>)"]
+               "py_names_ok: no state/event/action/guard is one of the template module's bare names (Gen/PyTmpl.v py_reserved_names: Enum, EventStartup, auto, queue, threading, unique) "
+               "nor <Name>StateId / <Name>StateMachine; NoTransition, On<State>Entry/Exit of another state, process<State> likewise"]
 TRUSTED = ["Coq 8.16.1 kernel (coqc; coqchk in the thorough tier)", "axioms: none",
            "translator/pytmpl.py (regex classification of the template's __init__ tail and State Processing section, fail closed)",
            "extraction: ExtrOcamlBasic + ExtrOcamlNativeString; ocaml/cmds_sm.ml",
